@@ -770,7 +770,8 @@ impl Rig {
                     _ => {}
                 }
                 head.extend_from_slice(b"\r\n");
-                verif::trace::emit(json!({"e": "Request", "conn": conn, "id": id, "method": method, "target": target,
+                let sent_ms = std::time::SystemTime::now().duration_since(std::time::UNIX_EPOCH).map(|d| d.as_millis() as u64).unwrap_or(0);
+                verif::trace::emit(json!({"e": "Request", "conn": conn, "id": id, "method": method, "target": target, "t": sent_ms,
                     "headers": headers_json(&headers), "framing": framing, "bodyLen": body.len(), "bodySha": sha256_hex(&body)}));
                 let mut g = c.lock().unwrap();
                 let mut wres = g.stream.write_all(&head);
